@@ -189,7 +189,8 @@ def scenario(calls, close_before=False, via_eventloopthread=False, burst=1, hold
                 r = proxy.not_callable
                 ev["ret"] = "val"
             else:
-                r = pre(i) if pre is not None else getattr(proxy, kind)(i)
+                # (arguments by keyword in every other call)
+                r = pre(i) if pre is not None else (getattr(proxy, kind)(i=i) if i % 2 else getattr(proxy, kind)(i))
                 if asyncio.isfuture(r) or asyncio.iscoroutine(r):
                     ev["ret"] = "pending"
                 elif r is None:
